@@ -2261,9 +2261,10 @@ namespace xsimd
             real_batch ze(0.);
 
             return select(y == ze,
+                          // y is +0 or -0 here: the imaginary part of the result carries its sign (branch cut along the negative real axis)
                           select(x == ze,
-                                 batch_type(ze, ze),
-                                 select(x < ze, batch_type(ze, sqrt_x), batch_type(sqrt_x, ze))),
+                                 batch_type(ze, y),
+                                 select(x < ze, batch_type(ze, copysign(sqrt_x, y)), batch_type(sqrt_x, y))),
                           select(x == ze,
                                  select(y > ze, batch_type(sqrt_hy, sqrt_hy), batch_type(sqrt_hy, -sqrt_hy)),
                                  resg));
